@@ -1,6 +1,8 @@
 pub mod ev;
 pub mod frame;
+pub mod gate;
 pub mod kv;
 pub mod l1;
+pub mod lin;
 pub mod model;
 pub mod wire;
